@@ -5,6 +5,7 @@ import (
 	"fmt"
 	"hash/fnv"
 	"math/rand"
+	"runtime"
 	"sort"
 	"strings"
 	"time"
@@ -151,6 +152,18 @@ func runFoScenario(d *Driver, id string, sc foScenario, res *Result) (trace []st
 	// provenance bookkeeping of the monitors
 	okVals := map[int]map[int]bool{}
 	errToks := map[int]map[int]bool{}
+	markOK := func(k, v int) { // k may be a key the scenario never named (a foreign key leaked in)
+		if okVals[k] == nil {
+			okVals[k] = map[int]bool{}
+		}
+		okVals[k][v] = true
+	}
+	markErr := func(k, e int) {
+		if errToks[k] == nil {
+			errToks[k] = map[int]bool{}
+		}
+		errToks[k][e] = true
+	}
 	for k := range sc.Keys {
 		okVals[k+1] = map[int]bool{}
 		errToks[k+1] = map[int]bool{}
@@ -265,6 +278,23 @@ func runFoScenario(d *Driver, id string, sc foScenario, res *Result) (trace []st
 	freshBuilt := map[int]bool{}  // a build for the key succeeded and its result was stored with a long ttl
 	failedBuilt := map[int]bool{} // a build for the key failed while the failure cache is on
 	faulty := len(sc.FaultAt) > 0
+	// a monitor violation that does not speak about the property under check (-for) is remembered and the scenario goes on under
+	// the monitors, so that it cannot hide a later violation (or the model/implementation disagreement) that does
+	var otherFirst *foViolation
+	emit := func(v *foViolation) *foViolation {
+		if v.kind != "monitor" || checkFor == "" || v.prop == checkFor {
+			return v
+		}
+		for _, a := range v.also {
+			if a == checkFor {
+				return v
+			}
+		}
+		if otherFirst == nil {
+			otherFirst = v
+		}
+		return nil
+	}
 	monitors := func(step string) *foViolation {
 		s.mu.Lock()
 		var newBuilds []*callout
@@ -286,10 +316,14 @@ func runFoScenario(d *Driver, id string, sc foScenario, res *Result) (trace []st
 		s.mu.Unlock()
 		for _, co := range newCalls {
 			if co.tid < 0 || co.tid >= n {
-				return &foViolation{"C06", "monitor", "fo:context-values-lost", fmt.Sprintf("after %s: a %s call-out arrived under a context that lost the caller's values", step, co.kind), nil}
+				if v := emit(&foViolation{"C06", "monitor", "fo:context-values-lost", fmt.Sprintf("after %s: a %s call-out arrived under a context that lost the caller's values", step, co.kind), nil}); v != nil {
+					return v
+				}
 			}
 			if k := kidOf(co.key); k != sc.Threads[co.tid].Key {
-				return &foViolation{"C09", "monitor", "fo:foreign-key", fmt.Sprintf("after %s: goroutine %d (Get for k%d) issues %s for key k%d: the key buffer the caller rewrote after Get returned leaked into the in-flight build", step, co.tid, sc.Threads[co.tid].Key, co.kind, k), []string{"C04", "C02"}}
+				if v := emit(&foViolation{"C09", "monitor", "fo:foreign-key", fmt.Sprintf("after %s: goroutine %d (Get for k%d) issues %s for key k%d: the key buffer the caller rewrote after Get returned leaked into the in-flight build", step, co.tid, sc.Threads[co.tid].Key, co.kind, k), []string{"C04", "C02"}}); v != nil {
+					return v
+				}
 			}
 			if co.kind == "write" && !storesBuild[co.tid] {
 				// the temporary re-store of a stale value must carry UpdateTTL
@@ -298,7 +332,9 @@ func runFoScenario(d *Driver, id string, sc foScenario, res *Result) (trace []st
 					ut = int64(time.Minute)
 				}
 				if co.ttl != ut {
-					return &foViolation{"C06", "monitor", "fo:refresh-ttl", fmt.Sprintf("after %s: goroutine %d re-stores the stale value with ttl %d, UpdateTTL is %d", step, co.tid, co.ttl, ut), nil}
+					if v := emit(&foViolation{"C06", "monitor", "fo:refresh-ttl", fmt.Sprintf("after %s: goroutine %d re-stores the stale value with ttl %d, UpdateTTL is %d", step, co.tid, co.ttl, ut), []string{"C10"}}); v != nil {
+						return v
+					}
 				}
 			}
 			if co.kind == "write" && storesBuild[co.tid] {
@@ -313,7 +349,9 @@ func runFoScenario(d *Driver, id string, sc foScenario, res *Result) (trace []st
 					}
 				}
 				if co.ttl != want {
-					return &foViolation{"C06", "monitor", "fo:store-ttl", fmt.Sprintf("after %s: goroutine %d stores the built value with ttl %d; caller ttl %d (has cell: %v), builder updates %v: the smallest non-zero of them is %d", step, co.tid, co.ttl, sc.Threads[co.tid].Cell, sc.Threads[co.tid].HasCell, lastBuildTTLs[co.tid], want), nil}
+					if v := emit(&foViolation{"C06", "monitor", "fo:store-ttl", fmt.Sprintf("after %s: goroutine %d stores the built value with ttl %d; caller ttl %d (has cell: %v), builder updates %v: the smallest non-zero of them is %d", step, co.tid, co.ttl, sc.Threads[co.tid].Cell, sc.Threads[co.tid].HasCell, lastBuildTTLs[co.tid], want), []string{"C10"}}); v != nil {
+						return v
+					}
 				}
 			}
 		}
@@ -323,10 +361,14 @@ func runFoScenario(d *Driver, id string, sc foScenario, res *Result) (trace []st
 				continue
 			}
 			if sc.Cfg.SR && freshBuilt[k] {
-				return &foViolation{"C05", "monitor", "fo:redundant-build", fmt.Sprintf("after %s: SyncRead is on and a build for k%d already succeeded (result still fresh), yet goroutine %d invokes the builder again", step, k, co.tid), nil}
+				if v := emit(&foViolation{"C05", "monitor", "fo:redundant-build", fmt.Sprintf("after %s: SyncRead is on and a build for k%d already succeeded (result still fresh), yet goroutine %d invokes the builder again", step, k, co.tid), nil}); v != nil {
+					return v
+				}
 			}
 			if sc.Cfg.FUT >= 0 && failedBuilt[k] {
-				return &foViolation{"C05", "monitor", "fo:failure-not-suppressed", fmt.Sprintf("after %s: a build for k%d failed moments ago (FailedUpdateTTL %s) yet goroutine %d invokes the builder again", step, k, sc.Cfg.FUT, co.tid), nil}
+				if v := emit(&foViolation{"C05", "monitor", "fo:failure-not-suppressed", fmt.Sprintf("after %s: a build for k%d failed moments ago (FailedUpdateTTL %s) yet goroutine %d invokes the builder again", step, k, sc.Cfg.FUT, co.tid), nil}); v != nil {
+					return v
+				}
 			}
 		}
 		// C01: at most one parked builder per key
@@ -345,7 +387,9 @@ func runFoScenario(d *Driver, id string, sc foScenario, res *Result) (trace []st
 		for k, ts := range perKey {
 			if len(ts) > 1 {
 				sort.Ints(ts)
-				return &foViolation{"C01", "monitor", "fo:overlapping-builds", fmt.Sprintf("after %s: builder running for key k%d in goroutines %v at the same time", step, k, ts), nil}
+				if v := emit(&foViolation{"C01", "monitor", "fo:overlapping-builds", fmt.Sprintf("after %s: builder running for key k%d in goroutines %v at the same time", step, k, ts), nil}); v != nil {
+					return v
+				}
 			}
 		}
 		// C02: provenance of every result
@@ -357,14 +401,20 @@ func runFoScenario(d *Driver, id string, sc foScenario, res *Result) (trace []st
 			k := sc.Threads[t].Key
 			if r.err == nil {
 				if r.val == 0 {
-					return &foViolation{"C02", "monitor", "fo:fabricated-zero", fmt.Sprintf("after %s: Get #%d for k%d returned (zero/nil, nil)", step, t, k), []string{"C03"}}
+					if v := emit(&foViolation{"C02", "monitor", "fo:fabricated-zero", fmt.Sprintf("after %s: Get #%d for k%d returned (zero/nil, nil)", step, t, k), []string{"C03"}}); v != nil {
+						return v
+					}
 				}
 				if !okVals[k][r.val] {
-					return &foViolation{"C02", "monitor", "fo:foreign-value", fmt.Sprintf("after %s: Get #%d for k%d returned value %d that was neither built for nor stored under that key (known: %v)", step, t, k, r.val, okVals[k]), []string{"C09"}}
+					if v := emit(&foViolation{"C02", "monitor", "fo:foreign-value", fmt.Sprintf("after %s: Get #%d for k%d returned value %d that was neither built for nor stored under that key (known: %v)", step, t, k, r.val, okVals[k]), []string{"C09"}}); v != nil {
+						return v
+					}
 				}
 			} else {
 				if e := errTok(r.err); !errToks[k][e] {
-					return &foViolation{"C02", "monitor", "fo:foreign-error", fmt.Sprintf("after %s: Get #%d for k%d returned error %v that no builder / backend call for that key produced (known: %v)", step, t, k, r.err, errToks[k]), nil}
+					if v := emit(&foViolation{"C02", "monitor", "fo:foreign-error", fmt.Sprintf("after %s: Get #%d for k%d returned error %v that no builder / backend call for that key produced (known: %v)", step, t, k, r.err, errToks[k]), nil}); v != nil {
+						return v
+					}
 				}
 			}
 		}
@@ -372,17 +422,31 @@ func runFoScenario(d *Driver, id string, sc foScenario, res *Result) (trace []st
 	}
 
 	var firstCorr *foViolation // remembered; the run continues under the monitors alone
+	modelOff := false
 	compare := func(step, reply string) *foViolation {
-		if firstCorr != nil {
+		if firstCorr != nil || modelOff {
 			return nil
 		}
 		if reply == "ambig" {
 			res.Ambiguous++
-			return &foViolation{"", "ambig", "", "", nil}
+			if v := emit(&foViolation{"", "ambig", "", "", nil}); v != nil {
+				return v
+			}
 		}
-		if reply == "disabled" || strings.HasPrefix(reply, "bad-errE") {
+		if reply == "disabled" || strings.HasPrefix(reply, "bad-errE") || reply == "missing-errE" {
 			if strings.HasPrefix(reply, "bad-errE") {
-				return &foViolation{"C05", "monitor", "fo:failure-ttl", fmt.Sprintf("after %s: cached failure expiry outside FailedUpdateTTL bounds: %s", step, reply), nil}
+				if v := emit(&foViolation{"C05", "monitor", "fo:failure-ttl", fmt.Sprintf("after %s: cached failure expiry outside FailedUpdateTTL bounds: %s", step, reply), []string{"C03", "C04", "C06"}}); v != nil {
+					return v
+				}
+			}
+			if reply == "missing-errE" {
+				if v := emit(&foViolation{"C05", "monitor", "fo:failure-not-cached", fmt.Sprintf("after %s: the build failed with the failure cache on, but Errors holds no entry with that error for the key", step), []string{"C03"}}); v != nil {
+					return v
+				}
+			}
+			if reply != "disabled" {
+				modelOff = true // the model did not take this step; the scenario continues under the monitors alone
+				return nil
 			}
 			firstCorr = &foViolation{"", "correspondence", "fo:disabled-step", fmt.Sprintf("%s is not a step of the model here (model: %s)", step, d.Ask("fo summary "+id)), nil}
 			lastCorr = firstCorr
@@ -499,7 +563,7 @@ func runFoScenario(d *Driver, id string, sc foScenario, res *Result) (trace []st
 				if sc.FaultAt[calloutIdx] {
 					nextErr++
 					dir.fault = nextErr
-					errToks[k][nextErr] = true
+					markErr(k, nextErr)
 				}
 				calloutIdx++
 				step = fmt.Sprintf("resume g%d from %s(k%d)", t, co.kind, k)
@@ -527,7 +591,9 @@ func runFoScenario(d *Driver, id string, sc foScenario, res *Result) (trace []st
 			s.resumeWith(co, dir)
 			_, hang := s.quiesce(5 * time.Second)
 			if hang != "" {
-				return trace, &foViolation{"C04", "monitor", "fo:hang", "after " + step + ": " + hang[:min(len(hang), 500)], nil}
+				if v := emit(&foViolation{"C04", "monitor", "fo:hang", "after " + step + ": " + hang[:min(len(hang), 500)], nil}); v != nil {
+					return trace, v
+				}
 			}
 			t1 := now()
 			switch co.kind {
@@ -536,12 +602,12 @@ func runFoScenario(d *Driver, id string, sc foScenario, res *Result) (trace []st
 				if strings.HasPrefix(co.outcome, "hit ") || strings.HasPrefix(co.outcome, "stale ") {
 					var v int
 					fmt.Sscanf(strings.Fields(co.outcome)[1], "%d", &v)
-					okVals[k][v] = true
+					markOK(k, v)
 				}
 			case "write":
 				line = fmt.Sprintf("fo write %s %d %d %d %s", id, t, t0, t1, co.outcome)
 				if co.outcome == "ok" {
-					okVals[k][co.val] = true
+					markOK(k, co.val)
 					if storesBuild[t] && (co.ttl == 0 || co.ttl >= int64(time.Minute)) {
 						freshBuilt[k] = true // the result of a build was stored and stays fresh for the whole scenario
 					}
@@ -549,10 +615,14 @@ func runFoScenario(d *Driver, id string, sc foScenario, res *Result) (trace []st
 				}
 			case "build":
 				if co.detached && !strings.Contains(co.ctxObs, "done-nil=true err=<nil> deadline=false tid="+fmt.Sprint(t)+" after: err=<nil>") {
-					return trace, &foViolation{"C06", "monitor", "fo:detached-context", fmt.Sprintf("%s: background builder context is not detached / lost values: %s", step, co.ctxObs), nil}
+					if v := emit(&foViolation{"C06", "monitor", "fo:detached-context", fmt.Sprintf("%s: background builder context is not detached / lost values: %s", step, co.ctxObs), nil}); v != nil {
+						return trace, v
+					}
 				}
 				if !co.detached && !strings.Contains(co.ctxObs, "tid="+fmt.Sprint(t)) {
-					return trace, &foViolation{"C06", "monitor", "fo:builder-context", fmt.Sprintf("%s: builder context lost the caller's values: %s", step, co.ctxObs), nil}
+					if v := emit(&foViolation{"C06", "monitor", "fo:builder-context", fmt.Sprintf("%s: builder context lost the caller's values: %s", step, co.ctxObs), nil}); v != nil {
+						return trace, v
+					}
 				}
 				ups := "-"
 				if len(dir.bTTLs) > 0 {
@@ -563,12 +633,12 @@ func runFoScenario(d *Driver, id string, sc foScenario, res *Result) (trace []st
 					ups = strings.Join(p, ",")
 				}
 				if dir.bOK {
-					okVals[k][dir.bVal] = true
+					markOK(k, dir.bVal)
 					storesBuild[t] = true
 					lastBuildTTLs[t] = dir.bTTLs
 					line = fmt.Sprintf("fo build %s %d %d %d ok %d ups=%s", id, t, t0, t1, dir.bVal, ups)
 				} else {
-					errToks[k][dir.bErr] = true
+					markErr(k, dir.bErr)
 					if sc.Cfg.FUT >= 0 {
 						failedBuilt[k] = true
 					}
@@ -599,7 +669,9 @@ func runFoScenario(d *Driver, id string, sc foScenario, res *Result) (trace []st
 		}
 		_, hang := s.quiesce(5 * time.Second)
 		if hang != "" {
-			return trace, &foViolation{"C04", "monitor", "fo:hang", "after " + step + ": " + hang[:min(len(hang), 500)], nil}
+			if v := emit(&foViolation{"C04", "monitor", "fo:hang", "after " + step + ": " + hang[:min(len(hang), 500)], nil}); v != nil {
+				return trace, v
+			}
 		}
 		t1 := now()
 		trace = append(trace, "begin")
@@ -625,32 +697,47 @@ func runFoScenario(d *Driver, id string, sc foScenario, res *Result) (trace []st
 	}
 	s.mu.Unlock()
 	if len(pending) > 0 {
-		return trace, &foViolation{"C04", "monitor", "fo:stuck-waiter", fmt.Sprintf("no goroutine can make progress but Gets %v never returned", pending), nil}
+		if v := emit(&foViolation{"C04", "monitor", "fo:stuck-waiter", fmt.Sprintf("no goroutine can make progress but Gets %v never returned", pending), nil}); v != nil {
+			return trace, v
+		}
 	}
 	s.mu.Lock()
 	lastLoneResult = s.results[0]
 	s.mu.Unlock()
 	if l := fe.KeyLocks(); l != 0 {
-		return trace, &foViolation{"C04", "monitor", "fo:lock-leak", fmt.Sprintf("all Gets and background builds finished but %d key lock(s) remain", l), []string{"C09"}}
+		if v := emit(&foViolation{"C04", "monitor", "fo:lock-leak", fmt.Sprintf("all Gets and background builds finished but %d key lock(s) remain", l), []string{"C09"}}); v != nil {
+			return trace, v
+		}
 	}
 	if firstCorr != nil {
 		if fmt.Sprintf("%d", buildIdx) != fmt.Sprint(stats.Get(cache.MetricBuild, name)) {
-			return trace, &foViolation{"C18", "monitor", "fo:build-count", fmt.Sprintf("%d builder invocations but cache_build=%d", buildIdx, stats.Get(cache.MetricBuild, name)), nil}
+			if v := emit(&foViolation{"C18", "monitor", "fo:build-count", fmt.Sprintf("%d builder invocations but cache_build=%d", buildIdx, stats.Get(cache.MetricBuild, name)), nil}); v != nil {
+				return trace, v
+			}
 		}
 		return trace, firstCorr
+	}
+	if otherFirst != nil {
+		return trace, otherFirst // the model was told nothing reliable after that point: no counter comparison
 	}
 	implStats := fmt.Sprintf("build=%d failed=%d refreshed=%d", stats.Get(cache.MetricBuild, name), stats.Get(cache.MetricFailed, name), stats.Get(cache.MetricRefreshed, name))
 	ms := d.Ask("fo stats " + id)
 	if !strings.HasPrefix(ms, implStats+" ") {
-		return trace, &foViolation{"C18", "monitor", "fo:metrics", fmt.Sprintf("failover counters: impl %s, model %s", implStats, ms), nil}
+		if v := emit(&foViolation{"C18", "monitor", "fo:metrics", fmt.Sprintf("failover counters: impl %s, model %s", implStats, ms), nil}); v != nil {
+			return trace, v
+		}
 	}
 	if !strings.HasSuffix(ms, "locks=0") {
-		return trace, &foViolation{"", "correspondence", "fo:model-locks", "model still holds key locks at quiescence: " + ms, nil}
+		if v := emit(&foViolation{"", "correspondence", "fo:model-locks", "model still holds key locks at quiescence: " + ms, nil}); v != nil {
+			return trace, v
+		}
 	}
 	if fmt.Sprintf("build=%d", buildIdx) != strings.Fields(implStats)[0] {
-		return trace, &foViolation{"C18", "monitor", "fo:build-count", fmt.Sprintf("%d builder invocations but %s", buildIdx, implStats), nil}
+		if v := emit(&foViolation{"C18", "monitor", "fo:build-count", fmt.Sprintf("%d builder invocations but %s", buildIdx, implStats), nil}); v != nil {
+			return trace, v
+		}
 	}
-	return trace, nil
+	return trace, otherFirst
 }
 
 func timeSuffix(line string, t0, t1 int64) string { return "" }
@@ -855,7 +942,17 @@ func runFo(o Opts) *Result {
 		}
 		res.Evaluations++
 		res.count("variant:" + sc.Cfg.Variant + "/" + sc.Cfg.Backend)
+		// every third scenario runs on a single P: a goroutine the frontend spawns then starts only after its creator
+		// blocked, i.e. after the caller got its result and rewrote its key buffer - the worst case for C04/C09, made deterministic
+		prevProcs := 0
+		if idx%3 == 1 {
+			prevProcs = runtime.GOMAXPROCS(1)
+			res.count("gomaxprocs:1")
+		}
 		trace, v := runFoScenario(d, fmt.Sprintf("f%d", idx), sc, res)
+		if prevProcs > 0 {
+			runtime.GOMAXPROCS(prevProcs)
+		}
 		res.TracesValidated++
 		for _, ev := range trace {
 			res.count("event:" + ev)
@@ -916,7 +1013,7 @@ func runFo(o Opts) *Result {
 		if lastCorr != nil && v != lastCorr {
 			res.Violations = append(res.Violations, Violation{Kind: "correspondence", Sig: lastCorr.sig + ":" + sc.Cfg.Variant, Detail: lastCorr.detail, Replay: rep})
 		}
-		if len(res.Violations) >= 5 {
+		if res.full() {
 			break
 		}
 	}
